@@ -87,3 +87,19 @@ impl PerMethod for Imp {
     fn unmarked(&self, a: u64) -> Result<u64, Code> { self.tick(); if self.ok { Ok(self.val ^ a) } else { Err(self.err()) } }
 }
 
+/// integer-coded result whose success payload is a WRAPPED associated value (an object)
+pub struct Kid { pub id: u64 }
+#[cglue_trait]
+pub trait KidT { fn kid(&self) -> u64; }
+impl KidT for Kid { fn kid(&self) -> u64 { self.id } }
+#[cglue_trait]
+#[int_result]
+pub trait WithChild {
+    #[wrap_with_obj(KidT)]
+    type Ret: KidT + 'static;
+    fn make(&self, a: u64) -> Result<Self::Ret, Code>;
+}
+impl WithChild for Imp {
+    type Ret = Kid;
+    fn make(&self, a: u64) -> Result<Kid, Code> { self.tick(); if self.ok { Ok(Kid { id: self.val ^ a }) } else { Err(self.err()) } }
+}
